@@ -474,7 +474,7 @@ def c14_e(ctx):
                [n for n in ast.walk(lo) if isinstance(n, ast.Delete)]
         if sets and pops:
             sg = [(t, pol) for (t, pol, _) in ctx.guards(setter, sets[0])
-                  if contains(t, '_ in _')]
+                  if match(t, pattern('_n in _s')) is not None]
             pg = [(t, pol) for (t, pol, _) in ctx.guards(setter, pops[0])]
             member = [t for (t, pol) in sg if pol]
             ok = bool(member) and any((t, False) in pg for t in member)
@@ -557,7 +557,7 @@ def c14_g(ctx):
               'the edge is not added from parent to child carrying its parameter', fn=ae,
               node=adds[0] if adds else ae.node)
     r = [s for s in ctx.stmts(ae, ast.Raise)]
-    ok = sum(1 for s in r if any(pol and contains(t, 'self.has_node(_)')
+    ok = sum(1 for s in r if any((not pol) and match(t, pattern('self.has_node(_)')) is not None
                                  for (t, pol, _) in ctx.guards(ae, s))) >= 2
     ctx.check(ok, ae, 'both end points must exist', 'raises for an unknown parent or child',
               'an edge to / from a node that does not exist is accepted', fn=ae, node=ae.node)
@@ -671,3 +671,120 @@ def ctx_stmt14(node):
     while n is not None and not isinstance(n, ast.stmt):
         n = getattr(n, '_parent', None)
     return n
+
+
+@obligation('C14-i', 'T11 T7', 'the observed data move with a replacement exactly when the '
+            'replacement had some; the reference that was replaced stays usable; a copy is '
+            'returned', floor=7,
+            necessary='a negated membership test pops a missing key or never moves the data; a '
+                      'replacement whose reference keeps its old name points at a node that no '
+                      'longer exists')
+def c14_i(ctx):
+    em = ctx.cls(EM)
+    up = ctx.own_method(em, 'update_node')
+    ex = ctx.ex(up)
+    cfg = cfg_of(up)
+    name_p, upd_p = ('param', up.params[1]), ('param', up.params[2])
+    MEM = '{} in self.observed'.format(up.params[2])
+    pops = [c for c in ctx.calls(up, name='pop')
+            if c.args and ex.term(c.args[0]) == upd_p and
+            match(ex.term(c.func.value), pattern('self.observed')) is not None]
+    puts = [s for (s, t, k) in ctx.stores(up, 'self.observed[_]')
+            if k == 'assign' and ex.term(t.slice) == name_p]
+    if len(pops) != 1 or len(puts) != 1:
+        ctx.undecided('pop / store of the observation in update_node not found')
+    ok = any(pol and match(t, pattern(MEM)) is not None for (t, pol, _) in ctx.guards(up, pops[0]))
+    ctx.check(ok, up, 'observation taken exactly when the replacement has one',
+              'if updating_name in self.observed: obs = self.observed.pop(updating_name)',
+              'the observation is not popped under `updating_name in self.observed`', fn=up,
+              node=pops[0])
+    # stored exactly when popped: a flag that is True exactly on the popping branch (or the
+    # store sits on the popping branch itself)
+    same_branch = cfg.must_precede([ctx.node(up, pops[0])], ctx.node(up, puts[0]))
+    flag_ok = False
+    for (t, pol, ta) in ctx.guards(up, puts[0]):
+        if not isinstance(ta, ast.Name) or not pol:
+            continue
+        defs = [n for n in own_nodes(up.node) if isinstance(n, ast.Assign) and
+                isinstance(n.targets[0], ast.Name) and n.targets[0].id == ta.id]
+        tr = [d for d in defs if isinstance(d.value, ast.Constant) and d.value.value is True]
+        fa = [d for d in defs if isinstance(d.value, ast.Constant) and d.value.value is False]
+        if len(tr) == 1 and len(fa) == 1 and len(defs) == 2:
+            key = lambda n: sorted(sorted(map(repr, g)) for g in ctx.guard_groups(up, n))
+            flag_ok = key(tr[0]) == key(pops[0]) and not ctx.guard_groups(up, fa[0]) and \
+                cfg.must_precede([ctx.node(up, fa[0])], ctx.node(up, tr[0])) and \
+                cfg.must_precede([ctx.node(up, fa[0])], ctx.node(up, puts[0]))
+    ctx.check(same_branch or flag_ok, up, 'observation stored exactly when one was taken',
+              'flag False; set True where popped; store under the flag',
+              'the observation is stored under a condition that is not `one was popped` (None '
+              'stored for unobserved nodes, or observed data dropped)', fn=up, node=puts[0])
+    # ElfiModel.copy returns the copy it built from the base copy
+    cp = ctx.own_method(em, 'copy')
+    exc = ctx.ex(cp)
+    rr = returns(cp)
+    falls = [p for (p, lab) in cfg_of(cp).ret.pred
+             if not (p.kind == 'stmt' and isinstance(p.ast, ast.Return))]
+    ok = len(rr) == 1 and not falls and match_any_(exc.term(rr[0].value),
+                                                   ('super(*_).copy()', 'super().copy()'))
+    ctx.check(ok, cp, 'copy returns the new model', 'kopy = super().copy(); ...; return kopy',
+              'ElfiModel.copy does not return the model built by the base copy', fn=cp,
+              node=rr[0] if rr else cp.node)
+    # become(): same-model check, structural update, both references end up on the kept node
+    nr = ctx.cls('elfi.model.elfi_model:NodeReference')
+    be = ctx.own_method(nr, 'become')
+    exb = ctx.ex(be)
+    oth = ('param', be.params[1])
+    rs = ctx.stmts(be, ast.Raise)
+    ok = bool(rs) and any(
+        any(pol and match_any_(t, ('{0}.model is not self.model'.format(be.params[1]),
+                                   'self.model is not {0}.model'.format(be.params[1])))
+            for (t, pol, _) in ctx.guards(be, r)) for r in rs)
+    un = ctx.calls(be, 'self.model.update_node(*_)')
+    ok = ok and len(un) == 1 and all(ctx.must_precede(be, [cfg_parent_if(r)], un[0]) for r in rs)
+    ctx.check(ok, be, 'replacement from another model refused before anything changes',
+              'if other_node.model is not self.model: raise', 'a node of another model is '
+              'accepted as replacement (its name is looked up in this model)', fn=be,
+              node=rs[0] if rs else be.node)
+    ok = len(un) == 1 and [exb.term(a) for a in un[0].args] == [
+        pattern_term('self.name'), ('attr', oth, 'name')] and \
+        cfg_of(be).must_pass([ctx.node(be, un[0])])
+    ctx.check(ok, be, 'kept node first, replacement second',
+              'self.model.update_node(self.name, other_node.name)',
+              'become does not call update_node(kept name, replacement name)', fn=be,
+              node=un[0] if un else be.node)
+    st_n = [s for (s, t, k) in ctx.stores(be, '{}.name'.format(be.params[1]))
+            if isinstance(s, ast.Assign)]
+    st_m = [s for (s, t, k) in ctx.stores(be, '{}.model'.format(be.params[1]))
+            if isinstance(s, ast.Assign)]
+    ok = len(st_n) == 1 and len(st_m) == 1 and bool(un) and \
+        exb.term(st_n[0].value) == pattern_term('self.name') and \
+        exb.term(st_m[0].value) == pattern_term('self.model') and \
+        cfg_of(be).must_pass([ctx.node(be, st_n[0])]) and \
+        cfg_of(be).must_pass([ctx.node(be, st_m[0])]) and \
+        ctx.must_precede(be, un, st_n[0])
+    ctx.check(ok, be, 'the replacement\'s reference points at the kept node afterwards',
+              'other_node.name = self.name; other_node.model = self.model',
+              'after become() the replacement\'s reference still names the removed node', fn=be,
+              node=(st_n or st_m or [be.node])[0])
+    cl = [s for (s, t, k) in ctx.stores(be, 'self.__class__') if isinstance(s, ast.Assign)]
+    ok = len(cl) == 1 and bool(un) and ctx.must_precede(be, un, cl[0]) and \
+        match_any_(exb.term(cl[0].value), ("self.state.get('_class', NodeReference)",
+                                           "self.state['_class']")) and \
+        any((not pol) and match(t, pattern('isinstance(self, _c)')) is not None
+            for (t, pol, _) in ctx.guards(be, cl[0]))
+    ctx.check(ok, be, 'the kept reference takes the class of the new state',
+              "if not isinstance(self, _class): self.__class__ = state['_class']",
+              'the kept reference does not take over the node class stored in the new state',
+              fn=be, node=cl[0] if cl else be.node)
+
+
+def match_any_(t, pats):
+    from ..values import match_any
+    return match_any(t, pats) is not None
+
+
+def cfg_parent_if(node):
+    n = getattr(node, '_parent', None)
+    while n is not None and not isinstance(n, ast.If):
+        n = getattr(n, '_parent', None)
+    return n.test if n is not None else node
